@@ -53,10 +53,13 @@ def scene_case(spec):
 
     impl = P.impl_pipeline(radi, src, c, dt, dur, K, recs, direct=True)
     tok = P.model_session(radi, src, c, dt, dur, K, recs, direct=True)
-    mism, mu = P.compare_stages(radi, impl, run_driver(tok), K, recs, dur, dt)
+    mism, mu = P.compare_stages(radi, impl, run_driver(tok), K, recs, dur, dt, src=src)
     out["max_ulp"] = mu
     out["traces"] = 1 + nrec
     for m in mism:
+        if m.get("rejected"):
+            out["rejected"] = out.get("rejected", 0) + 1
+            continue
         m.update(case=tag)
         out["mismatches"].append(m)
 
